@@ -356,6 +356,7 @@ pub fn gen_aig(rng: &mut Rng, cfg: &PCfg, size: usize) -> Doc {
         code += 2;
     }
     tail_sections(rng, &mut d, &k, max_lit);
+    let bin_start = d.bytes.len();
     for _ in 0..k.a {
         let d0 = match rng.below(4) {
             0 => 0,
@@ -375,6 +376,7 @@ pub fn gen_aig(rng: &mut Rng, cfg: &PCfg, size: usize) -> Doc {
         d.item_done();
         code += 2;
     }
+    d.binary = Some((bin_start, d.bytes.len()));
     symbols_and_comment(rng, &mut d, &k);
     d
 }
